@@ -373,3 +373,129 @@ def column_routes(draw, names):
     return {'dvia': draw(_dvia), 'dmask': draw(_mask), 'dflav': draw(_flav),
             'lvia': draw(_lvia), 'lmask': draw(_mask), 'lflav': draw(_flav),
             'dtypes': [draw(_dt3) == 0 for _ in names]}
+
+
+# ============================================================================= working-unit configurations (round 4)
+# atomman.unitconvert.reset_units sets PROCESS-GLOBAL working units.  A *configuration* is
+#     {'kind': 'named', 'units': {...}} | {'kind': 'seed', 'seed': n} | {'kind': 'SI'}
+# (named choices always contain a length unit and never all of length+mass+time+energy: what reset_units does with the
+# other combinations is C09's subject).  A *unit plan* of a round-trip case is None (the process is left as it is: default
+# units) or {'pre': None | cfg, 'W': cfg, 'R': None | cfg}: the judged dump runs under W, the loads under R (W when None;
+# honoured only where the file itself names the unit of every dimensional column), after the same dump + load was run and
+# judged under `pre` in the same process.  The snapshot numbers are angstrom / ps / amu / eV / e numbers; under a plan the
+# system is that PHYSICAL system expressed in the working units (factors: products of numericalunits attributes, my own
+# arithmetic, not uc.set_in_units).
+DEFAULT_UNITS = {'length': 'angstrom', 'mass': 'amu', 'energy': 'eV', 'charge': 'e'}
+DEFAULT_CFG = {'kind': 'named', 'units': dict(DEFAULT_UNITS)}
+_NAMED = {'length': ['nm', 'nm', 'pm', 'm', 'cm', 'aBohr', 'um', 'angstrom'], 'mass': ['kg', 'g', 'amu'],
+          'time': ['ns', 'ps', 'fs', 's'], 'energy': ['J', 'eV', 'kcal'], 'charge': ['C', 'e']}
+_SUBSETS = [('length',), ('length', 'time'), ('length', 'time'), ('length', 'mass'), ('length', 'energy'), ('length', 'charge'),
+            ('length', 'mass', 'time'), ('length', 'mass', 'energy'), ('length', 'time', 'energy'),
+            ('length', 'mass', 'time', 'charge'), ('length', 'mass', 'energy', 'charge'), ('length', 'time', 'energy', 'charge')]
+_S_SUBSET = st.sampled_from(_SUBSETS)
+_S_Q = {q: st.sampled_from(v) for q, v in _NAMED.items()}
+
+
+_S_KIND = st.sampled_from(['named', 'named', 'named', 'named', 'seed', 'seed', 'SI', 'default'])
+_S_SEED31 = st.integers(0, 2 ** 31 - 1)
+_QS = ('length', 'mass', 'time', 'energy', 'charge')
+
+
+@st.composite
+def _cfg(draw):
+    """one configuration; ALWAYS the same number of draws (see unit_plans)"""
+    kind, sub, seed = draw(_S_KIND), draw(_S_SUBSET), draw(_S_SEED31)
+    picks = {q: draw(_S_Q[q]) for q in _QS}
+    if kind == 'named':
+        return {'kind': 'named', 'units': {q: picks[q] for q in sub}}
+    if kind == 'seed':
+        return {'kind': 'seed', 'seed': seed}
+    return {'kind': 'SI'} if kind == 'SI' else DEFAULT_CFG
+
+
+S_CFG = _cfg()
+_ALT_CFG = [{'kind': 'named', 'units': {'length': 'nm', 'time': 'ns'}}, {'kind': 'named', 'units': {'length': 'pm', 'mass': 'kg', 'energy': 'J'}}]
+# order of the choices: Hypothesis shrinks towards the FIRST element.  A failure that needs the history of the process (a
+# factor remembered from an earlier configuration) also shows in plan-less cases that merely run after other cases of the
+# shard; the simplest choice is therefore a self-contained plan (same dump + load under the default units, then under
+# reset_units(length='nm')) so that the shrunk replay file reproduces in a fresh process.
+_plan_on = st.sampled_from([True, False, True, False, True])
+_pre_kind = st.sampled_from(['default', 'none', 'default', 'other', 'none'])
+_cross_on = st.sampled_from([False, True, False, True, False])
+
+
+def _other_than(cfg, ref):
+    """Hypothesis favours its simplest choices: make two configurations differ by construction"""
+    return cfg if cfg != ref else [a for a in _ALT_CFG if a != ref][0]
+
+
+@st.composite
+def unit_plans(draw, cross=True):
+    # every choice is drawn whether it is used or not: the Hypothesis shrinker prefers SHORTER choice sequences, and a
+    # plan-less case must not be "simpler" than the self-contained plan (see the comment above _plan_on)
+    on, W, pk, P, cr, R = draw(_plan_on), draw(S_CFG), draw(_pre_kind), draw(S_CFG), draw(_cross_on), draw(S_CFG)
+    if not on:
+        return None
+    if pk == 'default':
+        W = _other_than(W, DEFAULT_CFG)
+        pre = DEFAULT_CFG
+    elif pk == 'other':
+        pre = _other_than(P, W)
+    else:
+        pre = None
+    return {'pre': pre, 'W': W, 'R': _other_than(R, W) if cross and cr else None}
+
+
+S_PLAN = unit_plans(True)
+S_PLAN_NOCROSS = unit_plans(False)
+
+
+def apply_units(uc, cfg):
+    if cfg['kind'] == 'named':
+        uc.reset_units(**cfg['units'])
+    elif cfg['kind'] == 'seed':
+        uc.reset_units(seed=int(cfg['seed']))
+    else:
+        uc.reset_units(seed='SI')
+
+
+def restore_units(uc):
+    uc.reset_units(length='angstrom', mass='amu', energy='eV', charge='e')
+
+
+def unit_factors():
+    """size in the CURRENT working units of the angstrom / ps / amu / eV / e unit of every quantity the snapshots carry"""
+    import numericalunits as nu
+    L, M, T, E, Q = nu.angstrom, nu.amu, nu.ps, nu.eV, nu.e
+    return {'length': L, 'mass': M, 'velocity': L / T, 'force': E / L, 'charge': Q, 'torque': E, 'dipole': Q * L,
+            'density': M / L ** 3, 'volume': L ** 3, 'ang-mom': M * L * L / T, 'ang-vel': 1.0 / T}
+
+
+def own_unit_size(u):
+    """size in the CURRENT working units of the unit strings the column descriptions use (own arithmetic on numericalunits
+    attributes); None for a string not in the table"""
+    import numericalunits as nu
+    t = {'nm': nu.nm, 'angstrom': nu.angstrom, 'pm': nu.pm, 'm/s': nu.m / nu.s, 'angstrom/ps': nu.angstrom / nu.ps,
+         'eV/angstrom': nu.eV / nu.angstrom, 'nN': nu.nN, 'e': nu.e, 'amu': nu.amu, 'g/mol': nu.g / nu.mol, 'eV': nu.eV,
+         'kcal/mol': nu.kcal / nu.mol, 'e*angstrom': nu.e * nu.angstrom, 'GPa': nu.GPa, 'mJ/m^2': nu.mJ / nu.m ** 2}
+    return t.get(u)
+
+
+def physical(raw, rescale=None):
+    """the snapshot `raw` (angstrom / ps / amu / eV / e numbers) as the same physical system in the current working units;
+    rescale: {name: factor} for dimensionless-by-declaration properties that a file carries in an explicit unit"""
+    f = unit_factors()
+    L = f['length']
+    S = dict(raw)
+    S['V'], S['o'], S['pos'] = raw['V'] * L, raw['o'] * L, raw['pos'] * L
+    props = {}
+    for k, v in raw['props'].items():
+        m = raw['meta'][k]
+        if m['dtype'] == 'f' and m['q'] is not None:
+            v = v * f[m['q']]
+        elif m['dtype'] == 'f' and rescale and k in rescale:
+            v = v * rescale[k]
+        props[k] = v
+    S['props'] = props
+    S['raw'] = raw
+    return S
